@@ -28,7 +28,7 @@ ASSUMPTIONS = [
     "find_all_descendants delivers its result by appending the matches, in document order, to the list it is given (the list is an accumulator: what it held before stays)",
     "replace_child is driven with delete_old=False in the exhaustive part and with both settings in the random histories (the default deletes the old subtree from the registry, which is C14's subject; the ordered-tree invariants must hold regardless)",
 ]
-REQUIRED = ["sibling_pair_steps", "accumulator_queries", "vocabulary_probes", "wide_parent_steps", "deep_chain_nodes", "steps", "failing_edits", "edge_shifts_positional", "edge_shifts_samename", "query_evaluations", "states_expanded"]
+REQUIRED = ["descendants_kept_after_their_document_was_closed", "sibling_pair_steps", "accumulator_queries", "vocabulary_probes", "wide_parent_steps", "deep_chain_nodes", "steps", "failing_edits", "edge_shifts_positional", "edge_shifts_samename", "query_evaluations", "states_expanded"]
 EXHAUSTIVE = {"quick": False, "thorough": False}
 
 INDEXES = (None, -1, 0, 1, 2, 9)
@@ -301,6 +301,15 @@ def fresh_nodes(names, same_id_as=None):
     for i, nm in enumerate(names):
         j = same_id_as[i] if same_id_as else None
         nodes.append(Node(nm, id=nodes[j].id) if j is not None and j < i else Node(nm))
+        # what else a node carries is none of the tree's business: a third of the nodes have text (so that nodes with text AND children
+        # occur on every search path), some have a tail or an attribute
+        if i % 3 == 1:
+            nodes[-1].content = f"text {i}"
+        elif i % 7 == 3:
+            nodes[-1].content = ""
+        if i % 5 == 2:
+            nodes[-1].tail = " tail "
+            nodes[-1].add_attribute("id", f"n{i}")
     return nodes, {id(n): i for i, n in enumerate(nodes)}
 
 
@@ -541,6 +550,38 @@ def vocabulary_probe(ctx):
         emlkit.discard(*nodes)
 
 
+def only_a_descendant_is_kept(ctx):
+    """A document is closed (deleted from the registry by its root id) while the caller keeps one node from deep inside it - a search
+    result, say - and nothing else: the node is still where it was, below the same ancestors, whatever the garbage collector does."""
+    import gc
+    for depth in (2, 3, 10):
+        for held_kind in ("leaf", "inner"):
+            root = Node("eml")
+            cur = root
+            for d in range(depth):
+                nxt = Node(f"level{d}")
+                cur.add_child(Node("sibling"))
+                cur.add_child(nxt)
+                cur = nxt
+            kept = cur if held_kind == "leaf" else cur.parent
+            want = depth + 1 if held_kind == "leaf" else depth
+            Node.delete_node_instance(root.id)
+            del root, cur, nxt
+            gc.collect()
+            ctx.evaluated()
+            ctx.count("descendants_kept_after_their_document_was_closed")
+            wit = {"only_a_descendant_is_kept": [depth, held_kind]}
+            try:
+                anc = kept.get_ancestry()
+            except Exception as e:
+                ctx.violation(f"query-raises:get_ancestry:{type(e).__name__}", f"{e!r}", wit)
+                continue
+            if kept.parent is None or len(anc) != want or "eml" not in (anc[0].name, anc[-1].name) or not any(c is kept for c in kept.parent.children):
+                ctx.violation("query-differs:get_ancestry|only-a-descendant-kept", f"a node {want - 1} levels below the root of a document that was deleted "
+                              f"from the registry (nobody else holds the document): parent {kept.parent!r:.60}, ancestry of {len(anc)} nodes, expected {want}", wit)
+            emlkit.discard(kept)
+
+
 def sibling_pair_probe(ctx):
     """Below every element of the vocabulary, every pair of child names its rule declares (allow/deny below access, keyword/keywordThesaurus
     below keywordSet ...), interleaved: shifting among same-named siblings and positionally, both directions, every child - names are names."""
@@ -628,6 +669,7 @@ def run(ctx, params):
         deep_chain(ctx, 140 if ctx.tier == "quick" else 400)
         ctx.case(vocabulary_probe, ctx, seconds=300.0)
         ctx.case(sibling_pair_probe, ctx, seconds=600.0)
+        ctx.case(only_a_descendant_is_kept, ctx, seconds=60.0)
         for width in (300, 259, 64):
             ctx.case(wide_parent_probe, ctx, width, seconds=300.0)
     for h in range(params["random"]):
@@ -644,6 +686,11 @@ def replay(ctx, witness):
     if "repo_test" in witness:
         from vlib import repotests
         repotests.run(ctx, PROPERTY)
+        ctx.distinct(1)
+        ctx.distinct(2)
+        return
+    if "only_a_descendant_is_kept" in witness:
+        only_a_descendant_is_kept(ctx)
         ctx.distinct(1)
         ctx.distinct(2)
         return
